@@ -553,6 +553,8 @@ struct OpGen<'a> {
     frags: Vec<(String, Option<String>)>,
     allow_vars: bool,
     budget: i32,
+    /// swarm: @skip/@include on one selection in `dir_den` (0 = none in this request)
+    dir_den: u64,
 }
 
 impl OpGen<'_> {
@@ -564,7 +566,7 @@ impl OpGen<'_> {
 
     fn directives(&mut self) -> String {
         let mut s = String::new();
-        if self.rng.chance(1, 6) {
+        if self.dir_den > 0 && self.rng.chance(1, self.dir_den) {
             let arg = if self.allow_vars && self.rng.chance(1, 2) {
                 self.bool_var()
             } else {
@@ -572,7 +574,7 @@ impl OpGen<'_> {
             };
             let _ = write!(s, " @skip(if: {arg})");
         }
-        if self.rng.chance(1, 6) {
+        if self.dir_den > 0 && self.rng.chance(1, self.dir_den) {
             let arg = if self.allow_vars && self.rng.chance(1, 2) {
                 self.bool_var()
             } else {
@@ -836,7 +838,10 @@ pub fn gen_request_for(rng: &mut Rng, g: &GSchema) -> Request {
         frags: frag_types,
         allow_vars: true,
         budget: 14,
+        dir_den: 0,
     };
+    og.dir_den = *og.rng.pick(&[0, 0, 16, 8, 8, 4]);
+    og.budget = *og.rng.pick(&[6, 14, 14, 24, 40]);
     let mut body = if op_kind == "subscription" {
         // single root field, no introspection
         let fields = og.g.fields_of(&root).to_vec();
